@@ -20,6 +20,7 @@ ap = argparse.ArgumentParser()
 ap.add_argument("--n", type=int, default=100); ap.add_argument("--seed", type=int, default=1)
 ap.add_argument("--files", nargs="*"); ap.add_argument("--jobs", type=int, default=4)
 ap.add_argument("--out", default="/var/tmp/automut.jsonl"); ap.add_argument("--all-checks", action="store_true")
+ap.add_argument("--c", action="store_true", help="mutate the C sources instead of the Python ones")
 ap.add_argument("--list", action="store_true"); ap.add_argument("--tier", default="quick")
 a = ap.parse_args()
 
@@ -28,7 +29,7 @@ for l in open(os.path.join(HERE, "properties.jsonl")):
     d = json.loads(l)
     for f in d["anchors"]["files"]:
         anch.setdefault(f, []).append(d["id"])
-files = a.files or sorted(f for f in anch if f.endswith(".py"))
+files = a.files or sorted(f for f in anch if f.endswith((".c", ".h") if a.c else ".py"))
 
 CMP = {ast.Lt: ast.LtE, ast.LtE: ast.Lt, ast.Gt: ast.GtE, ast.GtE: ast.Gt, ast.Eq: ast.NotEq, ast.NotEq: ast.Eq,
        ast.Is: ast.IsNot, ast.IsNot: ast.Is, ast.In: ast.NotIn, ast.NotIn: ast.In}
@@ -111,9 +112,41 @@ def apply(src, where, text):
     return "\n".join(new)
 
 
+import re
+C_OPS = [(r"<=", "<"), (r"(?<![<-])<(?![<=])", "<="), (r">=", ">"), (r"(?<![>-])>(?![>=])", ">="), (r"==", "!="), (r"!=", "=="),
+         (r"\+\+", "--"), (r"\+=", "-="), (r"-=", "+="), (r"&&", "||"), (r"\|\|", "&&"), (r"\b1\b", "0"), (r"\b0\b", "1"), (r"\b2\b", "1"),
+         (r"\+ 1\b", ""), (r"- 1\b", ""), (r"\*", "+"), (r"(?<![+])\+(?![+=])", "-"), (r"(?<![->])-(?![-=>])", "+"), (r"\bi\b", "j"), (r"\bj\b", "i")]
+
+
+def c_candidates(src):
+    """token-level operators on code lines outside the verification-hook blocks, comments, preprocessor lines and strings"""
+    depth = 0; hook = []; incomment = False
+    for ln, line in enumerate(src.split("\n"), 1):
+        st = line.strip()
+        if st.startswith("#if"):
+            hook.append("JTIOSUE_QUBOVERT_VERIF" in st or (hook and hook[-1]))
+        elif st.startswith("#endif"):
+            if hook: hook.pop()
+        if "/*" in st and "*/" not in st: incomment = True
+        if "*/" in st: incomment = False; continue
+        if incomment or st.startswith(("#", "//", "/*", "*")) or (hook and hook[-1]) or '"' in st or not st:
+            continue
+        code = line.split("//")[0]
+        for pat, rep in C_OPS:
+            for mm in re.finditer(pat, code):
+                yield "c:%s->%s" % (mm.group(0), rep or "(none)"), (ln, mm.start(), ln, mm.end()), rep
+        if st.endswith(";") and not st.startswith(("return", "int ", "double ", "long ", "char ", "const ", "static ", "PyObject", "unsigned", "size_t", "}", "{", "break", "continue", "uint", "pcg")) and "=" in st:
+            ind = len(line) - len(line.lstrip())
+            yield "c:stmt-deleted", (ln, ind, ln, len(line)), ";"
+
+
 sites = []
 for f in files:
     src = open(os.path.join(REPO, f)).read()
+    if f.endswith((".c", ".h")):
+        for kind, where, text in c_candidates(src):
+            sites.append((f, kind, where, text))
+        continue
     for kind, where, text in candidates(src):
         try:
             new = apply(src, where, text); ast.parse(new)
@@ -148,6 +181,11 @@ def one(s):
         p = os.path.join(copy, f); src = open(p).read()
         rec["from"] = "\n".join(src.split("\n")[where[0] - 1:where[2]])[:200]
         open(p, "w").write(apply(src, where, text))
+        if f.endswith((".c", ".h")):
+            r = subprocess.run(["/venv/bin/python", "setup.py", "-q", "build_ext", "--inplace"], cwd=copy, capture_output=True, text=True)
+            if r.returncode:
+                rec["suite"] = "does-not-compile"
+                return rec
         env = dict(os.environ); env.pop("JTIOSUE_QUBOVERT_VERIF", None); env["PYTHONPATH"] = copy
         try:
             r = subprocess.run(["/venv/bin/python", "-m", "pytest", "-q", "-p", "no:cacheprovider", "-n", "4", "-x", "--timeout=300",
